@@ -138,7 +138,10 @@ def c14_pre(c):
     t0 = time.time()
     seeds = 8
     logf = os.path.join(c["wdir"], "miri.jsonl")
-    envm = dict(env, MIRIFLAGS="-Zmiri-disable-isolation -Zmiri-many-seeds=0..%d" % seeds, CARGO_TARGET_DIR=os.path.join(H, "target-miri"))
+    # -Zmiri-deterministic-floats: Miri otherwise adds a RANDOM rounding error to sin/cos/powf/... and picks random NaN
+    # payloads (modelling what Rust leaves unspecified across platforms); on one host these are fixed, and the digest
+    # comparison of this workload is about scheduling, not about libm precision
+    envm = dict(env, MIRIFLAGS="-Zmiri-disable-isolation -Zmiri-deterministic-floats -Zmiri-many-seeds=0..%d" % seeds, CARGO_TARGET_DIR=os.path.join(H, "target-miri"))
     p = subprocess.run(["cargo", "+nightly", "miri", "run", "--offline", "--bin", "pvmon", "--", "C14", "--mode", "miri", "--seed", str(c["seed"]), "--log", logf, "--cap-mb", "4096"],
                        cwd=H, env=envm, stdout=subprocess.PIPE, stderr=subprocess.STDOUT, text=True, timeout=3400)
     c["agg"].feed(logf, "miri")
